@@ -138,6 +138,17 @@ def _recase(uri, mode):
     return ''.join(out)
 
 
+def _scribble(result):
+    try:
+        for c in result:
+            if isinstance(c, bytearray) and len(c):
+                c[-1] ^= 0x20
+        if isinstance(result, list):
+            result.append(b'\x08\x01!')
+    except Exception:
+        pass
+
+
 def _check_single(r, comps, rep):
     enc = [T.enc_tlv(t, v) for t, v in comps]
     wire_ref = T.enc_tlv(7, b''.join(enc))
@@ -176,6 +187,7 @@ def _check_single(r, comps, rep):
     fs = Name.from_str(cu)
     if [bytes(c) for c in fs] != enc:
         r.bad('C09/canonical-uri-roundtrip', f'from_str({cu!r}) -> {[bytes(c).hex() for c in fs]} expected {[e.hex() for e in enc]}')
+    _scribble(fs)      # what a conversion returns belongs to the caller: editing it in place must not change later conversions
     # alternate URI
     su = Name.to_str(enc)
     long_number = any(t in ALT and len(v) > 1000 for t, v in comps)
@@ -231,12 +243,16 @@ def _check_single(r, comps, rep):
         got = Name.normalize(mk())
         if [bytes(c) for c in got] != enc:
             r.bad(f'C09/normalize/{fname}', f'{[bytes(c).hex() for c in got]} expected {[e.hex() for e in enc]}')
+        if fname.startswith('uri') or fname.startswith('list-str') or fname == 'list-mixed':
+            _scribble(got)
         if Name.to_bytes(mk()) != wire_ref:
             r.bad(f'C09/to_bytes-form/{fname}', '')
     # prefix: every prefix of a is a prefix; reflexive
     for k in range(len(enc) + 1):
         if not Name.is_prefix(enc[:k], enc):
             r.bad('C09/is_prefix-own-prefix', f'k={k}')
+        if not Name.is_prefix(T.enc_tlv(7, b''.join(enc[:k])), wire_ref) or not Name.is_prefix(T.enc_tlv(7, b''.join(enc[:k])), enc):
+            r.bad('C09/is_prefix-own-prefix/wire', f'k={k} of {len(enc)}, name value {len(wire_ref)} octets')
         if k < len(enc) and Name.is_prefix(enc, enc[:k]):
             r.bad('C09/is_prefix-longer', f'k={k}')
 
@@ -248,7 +264,8 @@ def _check_pair(r, a, b):
     forms_a = [ea, T.enc_tlv(7, b''.join(ea)), ref_name_canonical(a), [ref_comp_canonical(t, v) for t, v in a],
                [ref_comp_canonical(t, v) if i % 2 else ea[i] for i, (t, v) in enumerate(a)], tuple(ea)]
     forms_b = [eb, [memoryview(e) for e in eb], ref_name_canonical(b), [ref_comp_canonical(t, v) for t, v in b],
-               [eb[i] if i % 2 else ref_comp_canonical(t, v) for i, (t, v) in enumerate(b)]]
+               [eb[i] if i % 2 else ref_comp_canonical(t, v) for i, (t, v) in enumerate(b)],
+               T.enc_tlv(7, b''.join(eb)), bytearray(T.enc_tlv(7, b''.join(eb)))]
     for fa in forms_a:
         for fb in forms_b:
             if bool(Name.is_prefix(fa, fb)) != want:
@@ -282,6 +299,14 @@ def _pair(draw):
         v = draw(st.binary(min_size=n, max_size=n))
         a.insert(draw(st.integers(0, len(a))), [draw(st.sampled_from([8, 8, 32, 300])), v.hex()])
         a = a[:8]
+        if draw(st.booleans()):
+            # ... sized so that the VALUE of the whole name has 249..254 octets (where its Length grows to three octets)
+            target = draw(st.sampled_from([249, 250, 251, 252, 253, 254]))
+            k_ = next((i for i, c in enumerate(a) if len(c[1]) // 2 == n), None)
+            others = sum(len(S.comp_bytes(c)) for i, c in enumerate(a) if i != k_)
+            n2 = target - others - len(T.enc_num(a[k_][0])) - 1 if k_ is not None else 0
+            if 0 < n2 < 253:
+                a[k_] = [a[k_][0], v.hex()[:2 * n2].ljust(2 * n2, '0')]
     elif draw(st.integers(0, 9)) == 0:
         # magnitudes between the usual boundaries: one component of 1.7k..8k octets (any type, typed numbers included), or a
         # name of 17..100 one-octet components
